@@ -334,10 +334,13 @@ def source_spec(draw, count_pts):
     spec = dict(src=src)
     if src == "projective":
         mixed = draw(st.booleans())
+        # one factor for the whole drawing, possibly of quite another order of magnitude
+        # (a common factor costs no accuracy), times ordinary per-point factors
+        common = draw(st.sampled_from(gen.COMMON_FACTORS))
         if mixed:
-            spec["scales"] = [draw(gen.scalars_pm()) for _ in range(count_pts)]
+            spec["scales"] = [common * draw(gen.scalars_pm()) for _ in range(count_pts)]
         else:
-            s = draw(gen.scalars_pm())
+            s = common * draw(gen.scalars_pm())
             spec["scales"] = [s] * count_pts
         spec["mixed"] = mixed
     return spec
@@ -962,7 +965,7 @@ def geodesic_case(draw):
         case.update(draw(source_spec(count * 2)))
     else:
         case["src"] = "projective"
-        case["scales"] = [draw(gen.scalars_pm()) for _ in range(count * 2)]
+        case["scales"] = gen.scale_lists(draw, count * 2)[0]
     return case
 
 
@@ -1225,8 +1228,9 @@ def projective_case(draw, decoy=False, methods=("point", "segment", "polygon", "
            for _ in range(count)]
     assume_affine = draw(st.booleans())
     aff = np.array(aff, dtype=float).reshape((count, n, 2))
-    scales = np.array([[draw(gen.scalars_pm()) for _ in range(n)] for _ in range(count)],
-                      dtype=float).reshape((count, n, 1))
+    common = draw(st.sampled_from(gen.COMMON_FACTORS))
+    scales = np.array([[common * draw(gen.scalars_pm()) for _ in range(n)]
+                       for _ in range(count)], dtype=float).reshape((count, n, 1))
     if method == "polygon" and not assume_affine:
         # draw_polygon(assume_affine=False) sends polygons whose FIRST homogeneous coordinate
         # keeps one sign through the ordinary route: make that hold by construction (first
@@ -1507,9 +1511,9 @@ def horo_case(draw):
         PK = pull_back(D.from_model(np.array(pts), "poincare"), M)
         items.append(dict(u=(U / U[0]).tolist(), p=PK.tolist()))
     return dict(model=model, what=what, shape=shape, prog=prog, items=items, kinds=kinds,
-                fig=draw(FIG), su=[draw(gen.scalars_pm()) for _ in range(count)],
+                fig=draw(FIG), su=gen.scale_lists(draw, count)[0],
                 src=draw(st.sampled_from(["klein", "poincare", "projective"])),
-                scales=[draw(gen.scalars_pm()) for _ in range(2 * count)])
+                scales=gen.scale_lists(draw, 2 * count)[0])
 
 
 def body_horo(case, ctx):
